@@ -35,4 +35,16 @@ PROPS = {
         partial=['data-race freedom in the Go memory model: not provable in the model; checked per run by go -race on the same workload'],
         refuted=[],
     ),
+    'C10': dict(
+        title='Loading a file into the writer AST and saving it loses nothing',
+        runs=[dict(cmd='c10', n_quick=1500, n_thorough=30000, thorough_seeds=3, replayable=True)],
+        trusted_base=[KERNEL, GEN + ' (token type codes)', HARNESS,
+                      'hook hclwrite/loader_verif.go (read-only export of the loaded tree shape) and hclwrite/verif_hooks.go (VerifFileTokens)',
+                      'modelled, not verified: hclsyntax scanner and parser (their tokens and node ranges are INPUT to the loader model; ranges_wf — what an error-free parse guarantees — is checked on every case, not proved)'],
+        assumptions=['the loader model Write/Loader.v is hclwrite/parser.go: checked on every run by differential execution (tree shape, flattened tokens, accessors)',
+                     'ranges_wf holds for every error-free parse (checked per case: ranges_wf <-> Go lost no tokens)',
+                     'label text is compared as raw literal bytes; unescaping belongs to C11'],
+        partial=['that hclsyntax always produces ranges satisfying ranges_wf is checked per case, not proved (needs the parser model)'],
+        refuted=[],
+    ),
 }
